@@ -93,8 +93,16 @@ def r16c(ctx):
         if ev[1] != loc:
             continue
         vn = T.node(ev[2])
+        accloc = loc
+        if vn[0] == 'mod' and vn[2] == q and T.op(vn[1]) == 'phi' and T.node(vn[1])[1] in a.loop_nodes:
+            # the sum is carried in a temporary and reduced once after the loop: (sum) mod q is the same residue
+            srcs = T.phi_src.get((T.node(vn[1])[1], T.node(vn[1])[2]), ())
+            body_src = [x for x in srcs if T.op(x) == 'add' and vn[1] in T.node(x)[1:]]
+            if body_src and any(T.is_int(x, 0) for x in srcs):
+                vn = ('mod', body_src[0], q)
+                accloc = T.node(T.node(ev[2])[1])[2]        # the temporary that carries the sum
         if vn[0] == 'mod' and vn[2] == q and T.node(vn[1])[0] == 'add':
-            acc = [x for x in T.node(vn[1])[1:] if T.op(x) == 'phi' and T.node(x)[2] == loc]
+            acc = [x for x in T.node(vn[1])[1:] if T.op(x) == 'phi' and T.node(x)[2] == accloc]
             if len(acc) == 1:
                 lb = a.loop_bound.get(T.node(acc[0])[1])
                 seen = T.show(lb[0], 3) if lb else 'no counting loop'
